@@ -1,5 +1,5 @@
 import PsV.Proofs.Fits
-import PsV.Proofs.FitsBytes
+import PsV.Proofs.FitsCodec
 import PsV.Proofs.FitsRead
 import PsV.Proofs.FitsBridge
 /-!
